@@ -12,13 +12,105 @@ ASSUMPTIONS = [
     'in-memory grammars are deep copies of a PcfgGrammar really constructed from a minimal on-disk ruleset, with .grammar/.base replaced: they behave like loaded ones for PcfgQueue (the on-disk layer goes through the real loader)',
     'heap inspection reads PcfgQueue.p_queue when present; otherwise only the emitted multiset is checked',
 ]
-shards = Q.shards
-bounds = Q.bounds
+DISK_SHARDS = 8
+
+
+def shards(tier):
+    return Q.shards(tier) + [('disk-guesses', i, DISK_SHARDS) for i in range(DISK_SHARDS)]
+
+
+def bounds(tier):
+    b = dict(Q.bounds(tier))
+    b['disk_layer'] = 'on-disk rulesets (repeated alpha variables of one length with several masks, three alpha runs, Markov lines): real loader, real queue, real create_guesses to exhaustion'
+    return b
+
+
+def disk_specs(tier):
+    from . import queue_disk as D
+    from .. import rulesets as R
+    t0 = dict(D.TERMINALS[0])
+    # same-length alpha variables repeated in one structure, each with more than one mask
+    t0.update(A={1: [('a', .6), ('b', .4)], 2: [('ab', .7), ('cd', .3)]}, C={1: [('L', .6), ('U', .4)], 2: [('LL', .5), ('UL', .3), ('LU', .2)]})
+    out = []
+    for gr in ([('A2D1A2', .5), ('A2D1', .3), ('D1A1', .2)], [('A1A1A1', .6), ('A2A2', .4)], [('A1D1A1', .5), ('M', .3), ('A2O1A2D1A2', .2)],
+               [('A1A2A1A2', 1.0)], [('D1D1', .5), ('O1D1O1', .3), ('Y1Y1', .2)], [('M', 1.0)], [('A2A1A2', .5), ('A1A2A1', .5)]):
+        spec = dict(t0)
+        spec.update(grammar=gr, prince=D.PRINCE)
+        out.append(spec)
+    step = 29 if tier == 'quick' else 5
+    out += list(D.specs(tier))[::step]
+    return out
+
+
+def run_disk(shard, tier, acc):
+    """The statement at guess level: the multiset of strings written for the whole run = the language of the on-disk ruleset, one per derivation."""
+    from collections import Counter
+    from .. import tree, rulesets as R
+    from . import queue_disk as D
+    _, si, ns = shard
+    tree.use()
+    G = tree.imp('lib_guesser.pcfg_grammar').PcfgGrammar
+    Qc = tree.imp('lib_guesser.priority_queue').PcfgQueue
+    root = tree.mkdtemp('pcfgmc-c02d-')
+    for idx, spec in enumerate(disk_specs(tier)):
+        if idx % ns != si:
+            continue
+        acc.evals += 1
+        R.write_ruleset(root, spec)
+        types, base = R.ref_loaded(spec)
+        om = spec.get('omen', R.DEFAULT_OMEN)
+        want = Counter()
+        for bp, reps in base:
+            import itertools
+            for ix in itertools.product(*[range(len(types[r])) for r in reps]):
+                want.update(R.expand_pt(types, list(zip(reps, ix)), omen=om))
+        case = {'kind': 'disk-guesses', 'spec': spec}
+        try:
+            g = D.load(G, root, False, False, 'Grammar')
+            q = Qc(g)
+            lines = []
+            g.print_guess = lines.append
+            n = 0
+            while True:
+                it = q.next()
+                if it is None:
+                    break
+                n += 1
+                acc.transitions += 1
+                if n > 20000:
+                    break
+                g.create_guesses(it['pt'])
+        except Exception as e:
+            acc.fail(case, 'raise: running the on-disk ruleset %r to exhaustion raised %r' % (spec['grammar'], e), sig='C02:raise', oracle='C02')
+            tree.rmtree(root)
+            root = tree.mkdtemp('pcfgmc-c02d-')
+            continue
+        got = Counter(lines)
+        if any(v > 1 for v in want.values()) or len(base) > 1 or any(len(set(r)) < len(r) for _, r in base):
+            acc.nontrivial += 1
+        if got != want:
+            missing = list((want - got).elements())[:4]
+            extra = list((got - want).elements())[:4]
+            acc.fail(case, 'at: on-disk ruleset %r: the strings written over the whole run are not the language of the ruleset: %d derivations never written (e.g. %r), %d written too often or foreign (e.g. %r)'
+                     % (spec['grammar'], sum((want - got).values()), missing, sum((got - want).values()), extra), sig='C02:disk-guesses', oracle='C02')
+        import shutil
+        shutil.rmtree(root, ignore_errors=True)
+        root = tree.mkdtemp('pcfgmc-c02d-')
+    tree.rmtree(root)
 
 
 def run_shard(shard, tier, acc):
+    if shard[0] == 'disk-guesses':
+        return run_disk(shard, tier, acc)
     Q.run_shard(shard, tier, acc, 'C02')
 
 
 def replay(case):
+    if case.get('kind') == 'disk-guesses':
+        from ..runner import Acc
+        acc = Acc()
+        for i in range(DISK_SHARDS):
+            run_disk(('disk-guesses', i, DISK_SHARDS), 'thorough' if case.get('tier') == 'thorough' else 'quick', acc)
+        fs = [f for f in acc.failures if f['case'].get('spec', {}).get('grammar') == [tuple(x) for x in case['spec']['grammar']] or f['case'].get('spec', {}).get('grammar') == case['spec']['grammar']]
+        return fs[0]['msg'] if fs else None
     return Q.replay(case, 'C02')
